@@ -613,6 +613,11 @@ def run(check, repo, tier):
     _rm.floor = lambda cond, message: check.floor(cond, message.replace("C08.", "C04<-C08."))
     c08.check_number(_rm, cr.program)
     c08.check_parameters(_rm, cr.program)
+    # which statement a relative / absolute word is read under: the distance-mode rules of C01 (through C11's mode-switch rule)
+    check.rule("R9", "set_distance_mode announces the distance mode it records for every spelling it accepts, and the mode context managers restore it "
+                     "(rule R4 of C01): X(target) - X(origin) words are only right under G91, X(target) words under G90")
+    from . import c11
+    c11.mode_switches(check, repo, tier, rule="R9", methods=("set_distance_mode", "absolute_mode", "relative_mode"), floor=20)
     n4 = transformer_rules(check, cr.program)
     n4 += constructor_rules(check, cr.program)
     n4 += point_vector_rule(check, cr.program, "R4")
